@@ -25,6 +25,7 @@ struct ktimerfd ktimerfds[KMAXOBJ];
 struct kepoll kepolls[KMAXOBJ];
 
 struct ktime k_now = { 1000, 0 };
+struct ktime k_last_wait_return = { 1000, 0 };	/* kernel time when the last wait returned */
 int k_clock_symbolic;
 int k_clock_reads;
 int k_sys_mode[KSYS_MAX];
@@ -902,11 +903,19 @@ static int kwait(struct kwait_info *wi, struct epoll_event *evs)
 	}
 	if (k_wait_entry_hook)
 		k_wait_entry_hook(wi);
-	if (eintr_now())
-		return -1;
 	deadline = entry;
 	if (wi->has_timeout)
 		time_add(&deadline, wi->to_sec, wi->to_nsec);
+	if (eintr_now()) {
+		/* the signal may arrive after part of the timeout has elapsed */
+		if (k_clock_symbolic && wi->has_timeout) {
+			struct ktime t;
+			k_time_fresh(&t, "eintr-at");
+			sx_assume(k_time_le(&t, &deadline));
+		}
+		k_last_wait_return = k_now;
+		return -1;
+	}
 again:
 	collect_ready(wi, &kr);
 	if (kr.n == 0) {
@@ -994,6 +1003,7 @@ again:
 			wi->pfds[kr.idx[i]].revents = (short)kr.rev[i];
 	}
 out:
+	k_last_wait_return = k_now;
 	sx_note("k:wait-returns", kr.n);
 	if (kr.n == 0 && wi->epfd < 0) {
 		/* poll() writes every revents field, also when nothing is ready */
